@@ -1097,7 +1097,9 @@ def detail_of(program, smin, finding, budget, recA):
         return d, req
     if chk == "repeat":
         a, b = recA[sids[0]][0], recA[sids[1]][0]
-        c = ([c for c in differing(a, b) if group_of(c) == f] or [f])[0]
+        c = ([c for c in differing(a, b) if group_of(c) == f and not c.endswith("ids")] or [c for c in differing(a, b) if group_of(c) == f] or [f])[0]
+        if c.endswith("ids"):      # object identities: run-dependent numbers are not written out
+            return ({"component": c, "note": "the listed objects are not the same objects in the same order"}, "equal answers (no mutation in between)")
         return ({"component": c, "first_answer": _short(a.get(c)), "second_answer": _short(b.get(c))}, "equal answers (no mutation in between)")
     budget.replays += 1
     recB = run(program, smin, skip_history_obs=True)
@@ -1123,6 +1125,15 @@ FUNCTION = {"oracle": "RelationLink.get_start_time / MultiRelationLink.get_start
 # ------------------------------------------------------------------------------------------------
 # One history: run, analyse, classify
 # ------------------------------------------------------------------------------------------------
+INSTANCE_CAP = 20000
+DETERMINISTIC_FAMILIES = ("K corpus", "T templates", "X exhaustive")
+
+
+def fingerprint(witness):
+    """identity of ONE failing input: first 12 hex characters of the sha1 of its canonical JSON (program, history as enumerated, key)"""
+    return hashlib.sha1(json.dumps(witness, sort_keys=True, default=str).encode()).hexdigest()[:12]
+
+
 def witness_size(w):
     """smaller = preferred witness; explicit build programs are preferred to library circuits (which are short to write but large)"""
     return len(json.dumps(w, default=str)) + (400 if "lib" in w.get("program", {}) else 0)
@@ -1140,6 +1151,10 @@ class Stats:
         self.samples = []
         self.failing_histories = 0
         self.unclassified = 0
+        self.instances = {}       # key -> {fingerprint: record} of ALL failing inputs of the deterministic families
+        self.det_inputs = 0       # inputs of the deterministic families evaluated
+        self.det_skipped = 0      # ... not evaluated (deadline) or not fully classified
+        self.capped = set()
         self.probe = {"fresh_checked": 0, "fresh_mismatch": 0, "plots": 0, "obs_raises": {}, "mutation_only_runs": 0}
 
     def skip(self, reason):
@@ -1160,6 +1175,16 @@ class Stats:
         self.replays += o.replays
         self.failing_histories += o.failing_histories
         self.unclassified += o.unclassified
+        self.det_inputs += o.det_inputs
+        self.det_skipped += o.det_skipped
+        self.capped |= o.capped
+        for k, d in o.instances.items():
+            mine = self.instances.setdefault(k, {})
+            mine.update(d)
+            if len(mine) > INSTANCE_CAP:
+                for fp in sorted(mine)[INSTANCE_CAP:]:
+                    del mine[fp]
+                self.capped.add(k)
         for k, f in o.failures.items():
             self.fail(k, f)
         for k, v in o.skipped.items():
@@ -1202,7 +1227,7 @@ def nontrivial(program, history):
     return False
 
 
-def check_history(program, history, stats, shared=None, verbose=False, max_classify=6):
+def check_history(program, history, stats, shared=None, verbose=False, max_classify=6, deterministic=False, bcache=None):
     """runs one history: once with the mutations only (unless `shared` = (records, findings) of that run is given), once with its observations;
     evaluates the three checks, classifies and records the findings.  Returns the shared mutations-only result."""
     steps = with_sids(history)
@@ -1212,6 +1237,9 @@ def check_history(program, history, stats, shared=None, verbose=False, max_class
         return None
     has_obs = any(is_history_obs(st) for st in steps)
     stepsB = [st for st in steps if not is_history_obs(st)]
+    bkey = json.dumps(strip(stepsB), sort_keys=True)
+    if shared is None and bcache is not None and bkey in bcache:
+        shared = bcache[bkey]          # the same mutations-only replay was already run (and recorded) for this program
     try:
         if shared is None:
             recB = run(program, stepsB, fresh_probe=True)
@@ -1228,7 +1256,11 @@ def check_history(program, history, stats, shared=None, verbose=False, max_class
             findB = analyse(program, stepsB, recB, None)
             stats.histories += 1
             count_evaluations(stats, stepsB, recB, None)
-            record(program, strip(stepsB), stepsB, findB, stats, verbose, max_classify, recB, "mutations only")
+            record(program, strip(stepsB), stepsB, findB, stats, verbose, max_classify, recB, "mutations only", deterministic)
+            if deterministic:
+                stats.det_inputs += 1
+            if bcache is not None:
+                bcache[bkey] = (recB, findB)
         else:
             recB, findB = shared
         if not has_obs:
@@ -1254,11 +1286,13 @@ def check_history(program, history, stats, shared=None, verbose=False, max_class
         stats.samples.append({"program": program, "history": history,
                               "checked": {"observations": len([s for s in steps if is_obs(s)]), "findings": [[f["check"], f["field"]] for f in findings],
                                           "final_listing": recA["f0"][0].get("operations", [])[:6] if "f0" in recA else None}})
-    record(program, history, steps, findings, stats, verbose, max_classify, recA, "with observations")
+    record(program, history, steps, findings, stats, verbose, max_classify, recA, "with observations", deterministic)
+    if deterministic:
+        stats.det_inputs += 1
     return recB, findB
 
 
-def record(program, history, steps, findings, stats, verbose, max_classify, rec, label):
+def record(program, history, steps, findings, stats, verbose, max_classify, rec, label, deterministic=False):
     if verbose:
         print(f" run {label}:")
         for st in steps:
@@ -1286,8 +1320,18 @@ def record(program, history, steps, findings, stats, verbose, max_classify, rec,
                 print("  FINDING", key)
                 print("     minimal steps:", [step_name(st, False) for st in smin])
                 print("     observed:", json.dumps(observed, default=str), "required:", json.dumps(required, default=str))
+        if deterministic:
+            iw = {"program": program, "history": history, "key": key}       # the input as enumerated (not minimised) + the class it fails in
+            fp = fingerprint(iw)
+            slot = stats.instances.setdefault(key, {})
+            if fp not in slot:
+                observed, required = detail_of(program, smin, fd, budget, rec0)
+                slot[fp] = {"key": key, "witness": iw, "observed": observed, "required": required,
+                            "minimal_history": hist_min, "final_report_steps_needed": witness["final_report_steps_needed"]}
         stats.replays += budget.replays
     stats.unclassified += max(0, len(findings) - max_classify)
+    if deterministic and len(findings) > max_classify:
+        stats.det_skipped += 1
 
 
 # ------------------------------------------------------------------------------------------------
@@ -1587,7 +1631,7 @@ def make_jobs(tier, seed):
     kj = [{"family": "K corpus", "program": c["program"], "mutations": None, "histories": [c["history"]]} for c in corpus]
     summary.append(f"K corpus: {len(kj)} recorded (program, history) inputs, one per witness class seen during development (bounded/c03_corpus.json)")
     # X: exhaustive histories over the reduced alphabet on the core programs
-    xplan = [(cores[1:4], 4), (cores[:1] + cores[4:], 3)] if thorough else [(cores[:4], 3)]
+    xplan = [(cores[1:4], 4), (cores[:1] + cores[4:], 3)] if thorough else [(cores[1:2] + cores[3:4], 3)]
     for xprogs, xlen in xplan:
         xj = exhaustive_jobs(xprogs, xlen)
         jobs += xj
@@ -1595,10 +1639,10 @@ def make_jobs(tier, seed):
                        f"{[p['name'] for p in xprogs]}: {sum(len(j['histories']) + 1 for j in xj)} histories")
     # T: templates on small programs
     sp = small_programs()
-    tp = sp if thorough else rng.sample(sp, 300)
+    tp = sp if thorough else sp[::3]        # independent of the seed: the deterministic families are the same in every run of a tier
     tj = [{"family": "T templates", "program": p, "mutations": None, "histories": template_histories(p)} for p in tp + cores + library_programs(thorough)]
     jobs += tj
-    summary.append(f"T templates: {len(TEMPLATES)} named flows on {len(tj)} programs ({'all' if thorough else '300 sampled of the'} {len(sp)} programs of <= 2 top-level "
+    summary.append(f"T templates: {len(TEMPLATES)} named flows on {len(tj)} programs ({'all' if thorough else 'every third of the'} {len(sp)} programs of <= 2 top-level "
                    f"items over a reduced alphabet x every relation and 3-item programs with a sub-circuit x repetitions 1..3; core programs; library "
                    f"repetition-code circuits)")
     # R: random programs x random histories
@@ -1627,17 +1671,22 @@ def make_jobs(tier, seed):
     split = []
     for j in jobs:
         hs = j["histories"]
-        for n in range(0, max(len(hs), 1), 24):
-            split.append(dict(j, histories=hs[n:n + 24], first=(n == 0)))
+        size = 24 if j["mutations"] is not None else 48     # template jobs stay whole: their histories share mutations-only replays
+        for n in range(0, max(len(hs), 1), size):
+            split.append(dict(j, histories=hs[n:n + size], first=(n == 0)))
     jobs = split
     by_family = {}
     for j in jobs:
         by_family.setdefault(j["family"], []).append(j)
     for lst in by_family.values():
         rng.shuffle(lst)
+    # the deterministic families first (their failing inputs are reported one by one: they should all be reached), then the samples
     ordered = [dict(j, first=True) for j in kj]
-    for group in itertools.zip_longest(*by_family.values()):
-        ordered.extend(j for j in group if j is not None)
+    det = [by_family[f] for f in by_family if f in DETERMINISTIC_FAMILIES]
+    rnd = [by_family[f] for f in by_family if f not in DETERMINISTIC_FAMILIES]
+    for fams in (det, rnd):
+        for group in itertools.zip_longest(*fams):
+            ordered.extend(j for j in group if j is not None)
     return ordered, summary
 
 
@@ -1651,6 +1700,7 @@ def run_job(job):
     stats = Stats()
     base.L()
     program = {k: v for k, v in job["program"].items() if k != "name"}
+    det = job.get("family") in DETERMINISTIC_FAMILIES
     try:
         shared = None
         if job["mutations"] is not None:
@@ -1658,9 +1708,10 @@ def run_job(job):
             h0 = concretise(program, job["mutations"])
             if _DEADLINE[0] is not None and time.time() > _DEADLINE[0]:
                 stats.skip("time budget of the tier exhausted")
+                stats.det_skipped += (len(job["histories"]) + 1) if det else 0
                 return stats
             if job.get("first", True):
-                shared = check_history(program, h0, stats)     # the mutations-only history is itself a history (checked once)
+                shared = check_history(program, h0, stats, deterministic=det)     # the mutations-only history is itself a history (checked once)
             else:
                 try:
                     s0 = with_sids(h0)
@@ -1671,13 +1722,16 @@ def run_job(job):
                     shared = None
             if shared is None:
                 return stats
+        bcache = {} if shared is None else None
         for h in job["histories"]:
             if _DEADLINE[0] is not None and time.time() > _DEADLINE[0]:
                 stats.skip("time budget of the tier exhausted")
+                stats.det_skipped += 1 if det else 0
                 continue
             h = concretise(program, h)
-            check_history(program, h, stats, shared=shared)
+            check_history(program, h, stats, shared=shared, deterministic=det, bcache=bcache)
     except Exception as e:  # harness problem: make it visible
+        stats.det_skipped += 1 if det else 0
         stats.skip("harness error: " + "".join(traceback.format_exception_only(type(e), e)).strip()[:300] +
                    " @ " + traceback.format_tb(e.__traceback__)[-1].strip()[:200])
     return stats
@@ -1778,6 +1832,30 @@ def main(argv=None):
                                           if lbad else "all reported times agree with the relation equations"), "ok": True})
     except Exception as e:  # noqa
         res.probes.append({"assumption": f"informational: library witness could not be evaluated ({type(e).__name__})", "ok": True})
+    # every failing input of the deterministic families, one by one (fingerprints in the failure records, witnesses in a side file)
+    harness_err = [k for k in total.skipped if k.startswith("harness error")]
+    all_reached = total.det_skipped == 0 and not harness_err
+    side, side_bytes = {}, 0
+    for key in sorted(set(total.failures) | set(total.instances)):
+        inst = total.instances.get(key, {})
+        complete = all_reached and key not in total.capped
+        for fp in sorted(inst):
+            blob = len(json.dumps(inst[fp], default=str))
+            if side_bytes + blob > 50_000_000:
+                complete = False
+                continue
+            side_bytes += blob
+            side[fp] = inst[fp]
+        if key in total.failures:
+            total.failures[key]["instances"] = {"complete": complete, "count": len(inst), "fps": sorted(inst)}
+    res.probes.append({"assumption": f"per-input reporting: {total.det_inputs} inputs of the deterministic families (K corpus, T templates, X exhaustive; the "
+                                     f"same in every run of this tier, independent of the seed) were evaluated, {total.det_skipped} were not reached / not "
+                                     f"fully classified; {len(side)} failing (input, key) instances written to the side file", "ok": all_reached})
+    if args.out:
+        ipath = (args.out[:-5] if args.out.endswith(".json") else args.out) + ".instances.json"
+        os.makedirs(os.path.dirname(os.path.abspath(ipath)), exist_ok=True)
+        with open(ipath, "w") as fh:
+            json.dump(side, fh, indent=0, sort_keys=True, default=str)
     for f in total.failures.values():
         f.pop("_size", None)
     res.failures = total.failures
@@ -1797,8 +1875,11 @@ def main(argv=None):
 def replay(path):
     rec, a = common.load_replay(path)
     key = a.get("key") or rec.get("key") or rec.get("id") or rec.get("obligation")
+    if "program" not in a and isinstance(rec.get("witness"), dict) and "program" in rec["witness"]:
+        a = dict(rec["witness"], **{k: v for k, v in a.items() if k not in rec["witness"]})
     program, history = a["program"], a["history"]
-    print(f"replaying {key}")
+    single = "found_in" not in a      # the record of ONE input (instances side file): just this input is re-evaluated
+    print(f"replaying {key}" + (" (single input)" if single else " (class witness)"))
     print(" program:", json.dumps(program))
     print(" history:", json.dumps(history))
     stats = Stats()
